@@ -34,6 +34,10 @@ NOTES = {
     "C18_e": "environment never replaced while decoding: the first group's pre hook installs a new environment",
     "C19_f": "ASCII names only: names outside NFKC normal form", "C20_e": "all classes defined before any tag change: class L defined mid-history",
     "C20_f": "unrelated component types only: derived type R(P)",
+    "C05_h": "one change of the system set per running system in the quick tier: two-removal / add+remove scripts, five systems, two actors",
+    "C07_g": "no repetitions inside grid_search: three repetitions of one seed, trajectory digests", "C07_h": "other models only stepped BETWEEN timesteps: also from inside a system",
+    "C13_g": "residents never gained components in C13's runs: they do now (C03's known findings tolerated there)",
+    "C14_h": "name literals were the same interned objects: equal strings built at run time",
 }
 
 
@@ -53,13 +57,13 @@ def main():
             fv = "detected"
         rows.append(f"| {name} | {m['what'][:170].replace('|', '/')} | {m['needs'][:150].replace('|', '/')} | {det} | {fv} |")
     head = ("\n### 11.5 Independently seeded changes (`/verif/seeded/<id>/`)\n\n"
-            "One hundred and twenty changes were produced in three rounds by fresh sub-agents that saw only the text of one property and a scratch worktree "
-            "(two per property and round; ids `_a`,`_b` = round 1, `_c`,`_d` = round 2, `_e`,`_f` = round 3; the agents of later rounds were told "
-            "what the earlier rounds had produced and asked for something different). Each passes the 110 tests, and its demonstration fails with the change and passes without it "
+            "One hundred and sixty changes were produced in four rounds by fresh sub-agents that saw only the text of one property and a scratch worktree "
+            "(two per property and round; ids `_a`,`_b` = round 1, `_c`,`_d` = round 2, `_e`,`_f` = round 3, `_g`,`_h` = round 4; the agents of later rounds were told "
+            "what the earlier rounds had produced and asked for something different; round 4 was asked to stay strictly inside the quantifier text). Each passes the 110 tests, and its demonstration fails with the change and passes without it "
             "(re-confirmed by `tools/seedcheck.py import`). `tools/seedcheck.py run` applies a patch to `/repo`, runs the property's quick check "
             "and undoes it (`git checkout -- .`); `run --scratch` does the same on a scratch copy (`VERIF_REPO`) so that runs can go in parallel. "
             "**All of them are detected by the quick check of their property** (`result_quick.json`, current checks). "
-            "The checks as they stood when a round arrived missed 8 of round 1, 17 of round 2 and 16 of round 3 (`result_first.json`); each miss was a gap in what the *drivers* "
+            "The checks as they stood when a round arrived missed 8 of round 1, 17 of round 2, 16 of round 3 and 5 of round 4 (`result_first.json`); each miss was a gap in what the *drivers* "
             "exercised, closed as noted - the specifications' obligations were not changed for any of them and no check was loosened. "
             "Two patches (`C05_b`, `C05_c`) were re-based onto the hook commit (`patch_before_hook.diff` keeps the original).\n\n"
             "| id | change | needs | detected by | first version of the checks |\n|---|---|---|---|---|\n")
